@@ -149,8 +149,15 @@ def _as_array_or_scalar(exprs: Sequence[ScalarExpression],
     an :class:`~pytato.array.IndexLambda` of *out_shape* shape.
     """
 
+    from pytato.diagnostic import CannotBroadcastError
+
     result: list[ArrayOrScalar] = []
-    if out_shape != get_shape_after_broadcasting(bindings.values()):
+    try:
+        broadcast_shape = get_shape_after_broadcasting(bindings.values())
+    except CannotBroadcastError:
+        # e.g. a lowered einsum: the operands do not broadcast against each other
+        raise UnknownIndexLambdaExpr() from None
+    if out_shape != broadcast_shape:
         raise UnknownIndexLambdaExpr()
 
     binding_to_subscript = {bnd_name: p.Subscript(
